@@ -41,6 +41,29 @@ def main():
                         t = load_module(pyc)
                         write_bytecode_file(wr, t[3], t[2], compilation_ts=1234567, filesize=99)
                     rec["written"] = True
+                    # for the in-Coq comparison of the payload writer model (Python 3 targets): both payloads and repr() of every float constant
+                    vt = tuple(t[0][:2])
+                    if (3, 0) <= vt < (3, 11):
+                        k = 8 if vt < (3, 3) else (12 if vt < (3, 7) else 16)
+                        import struct
+                        rec["magic"] = t[2]
+                        rec["orig_payload"] = list(open(pyc, "rb").read()[k:])
+                        rec["written_payload"] = list(open(wr, "rb").read()[k:])
+                        fl = {}
+
+                        def walk(v):
+                            if isinstance(v, float):
+                                fl[struct.unpack("<Q", struct.pack("<d", v))[0]] = list(repr(v).encode())
+                            elif isinstance(v, complex):
+                                walk(v.real); walk(v.imag)
+                            elif isinstance(v, (tuple, list, set, frozenset)):
+                                for x in v:
+                                    walk(x)
+                            elif hasattr(v, "co_consts"):
+                                for x in v.co_consts:
+                                    walk(x)
+                        walk(t[3])
+                        rec["float_reprs"] = sorted(fl.items())
                 except Exception as e:
                     rec["write_error"] = type(e).__name__
                     out.append(rec); continue
